@@ -35,8 +35,13 @@ def run(F, rep, tier):
     rep.assumptions += ["the name-part state machine collects the longest possible sequence of parts (character classes are checked by R06.8)",
                         "HashSet::contains / Vec indexing behave as documented"]
     longest_first_rule(F, rep)
+    variable_before_scope_rule(F, rep)
     binding_rule(F, rep)
     key_coverage_rule(F, rep)
+    # premise (C13): parser actions leave the parsing scope balanced - a context popped or left behind by one construct changes which names the lexer knows afterwards
+    from props import c13
+    r3 = rep.rule("R13.3", "parser actions composed along the grammar: every start alternative leaves the parsing scope at its entry depth; names are added at depth >= 1 only")
+    c13.grammar_rule(F, rep, r3, g3_scope.ScopeAnalysis(F, callgraph.CallGraph(F)))
 
 
 # ====================================================================================================== R10.1
@@ -270,12 +275,15 @@ def position_from(b, defs, calls, L, roots, bi, d):
     seen, work = set(), [start]
     found = None
 
+    # locals L itself is taken from: an item of an iterator (`for (k, pos) in ..enumerate()..rev()`) carries the length and the position together
+    origin = {r for r in roots(["C", [L]]) if r in calls and (calls[r][1]["f"].get("p") or "").endswith("::next")} | {L}
+
     def depends(op, depth=0, vis=None):
         vis = vis if vis is not None else set()
         if op[0] not in ("C", "M"):
             return False
         l = op[1][0]
-        if l == L:
+        if l in origin:
             return True
         if l in vis or depth > 10:
             return False
@@ -303,6 +311,54 @@ def position_from(b, defs, calls, L, roots, bi, d):
         if len(seen) > 40:
             break
     return found
+
+
+# ====================================================================================================== R10.4
+def variable_before_scope_rule(F, rep):
+    """the name of an iteration / quantified variable is everything in front of `in` (the lexer's till_in mode); it is being *introduced*, so it must be cut out before
+    the scope is consulted - otherwise a bound name that is a prefix of the new variable's name wins (`for order line in ..` with `order` bound)."""
+    import mirutil
+    rid = rep.rule("R10.4", "the variable of for / some / every (the parts in front of `in`) is returned before the scope keys are consulted")
+    adt = F.adts.get("dmntk_feel_parser::lexer::Lexer")
+    if adt is None:
+        rep.missing_anchor(rid, "dmntk_feel_parser::lexer::Lexer")
+        return
+    fi = [i for i, f in enumerate(adt["variants"][0]["fields"]) if f["name"] == "till_in"]
+    if not fi:
+        rep.undecided(rid, "till-in", "the lexer has no `till_in` mode flag")
+        return
+    fi = fi[0]
+    n_ok = 0
+    for n, b in sorted(F.bodies.items()):
+        if not n.startswith("dmntk_feel_parser::"):
+            continue
+        scans = [bi for bi, bl in enumerate(b["blocks"]) if bl["t"][0] == "call" and bl["t"][1]["f"].get("p") == FLATTEN_SCOPE]
+        if not scans:
+            continue
+        # blocks that branch on a copy of self.till_in
+        flag_locals = set()
+        for bl in b["blocks"]:
+            for s in bl["s"]:
+                if s[0] == "A" and len(s[1]) == 1 and s[2][0] == "Use" and s[2][1][0] in ("C", "M") and s[2][1][1][0] == 1 and s[2][1][1][-1] == [".", fi]:
+                    flag_locals.add(s[1][0])
+        tests = [bi for bi, bl in enumerate(b["blocks"]) if bl["t"][0] == "switch" and bl["t"][1][0] in ("C", "M") and bl["t"][1][1][0] in flag_locals]
+        key = "till-in:%s" % n.split("::")[-1]
+        if not tests:
+            rep.undecided(rid, key, "%s consults the scope keys but never tests the till_in mode" % n)
+            continue
+        B_ = mirutil.Body(F, b)
+        dom = B_.dominators()
+
+        def dominates(a, x):
+            return a in dom.get(x, set())
+        if all(any(dominates(t, sc) for t in tests) for sc in scans):
+            n_ok += 1
+            rep.ok(rid, key, "the till_in test dominates the call of Scope::flatten_keys")
+        elif any(reaches(b, sc, t) for sc in scans for t in tests):
+            rep.violation(rid, key, "%s consults the scope keys before it handles the variable in front of `in`: a bound name that is a prefix of a new iteration variable's name is "
+                          "returned instead of the variable" % n, "%s:%s" % (b["file"], b["line"]))
+        else:
+            rep.undecided(rid, key, "the till_in test neither dominates nor follows the scope lookup")
 
 
 # ====================================================================================================== R10.2
@@ -455,17 +511,38 @@ ALL_ITEMS = {"iter", "into_iter", "iter_mut", "as_vec", "as_slice", "as_ref", "b
              "cloned", "copied", "collect", "to_vec", "unwrap_or_default", "to_owned", "rev", "chain", "extend", "fold", "inspect", "by_ref", "as_deref", "entries", "as_mut", "enumerate"}
 
 
-def chain_of(e):
-    """method names of a receiver chain from the root outwards, and the root expression"""
+def aliases_of(h):
+    """{local: initialiser} of the simple `let x = <expr>;` statements of a function body (closures included)"""
+    out = {}
+    for st, _ in find_hir(h["body"] if "body" in h else h, lambda x: x.get("k") == "LetStmt" and "e" in x):
+        p = st.get("p", {})
+        while p.get("k") in ("Ref",):
+            p = p.get("p", {})
+        if p.get("k") == "Bind" and "sub" not in p:
+            out[p["name"]] = None if p["name"] in out else st["e"]      # assigned twice: not an alias
+    return {k: v for k, v in out.items() if v is not None}
+
+
+def chain_of(e, aliases=None, depth=0):
+    """method names of a receiver chain from the root outwards, and the root expression; a root that is a local bound by a simple `let` is followed into its initialiser"""
     names = []
     e = strip(e)
-    while e.get("k") == "MethodCall":
-        names.append(e.get("method"))
-        e = strip(e["recv"])
-    while e.get("k") == "Call" and e.get("args"):
-        names.append((e.get("callee") or "?").split("::")[-1])
-        e = strip(e["args"][0])
-    return list(reversed(names)), e
+    while True:
+        if e.get("k") == "MethodCall":
+            names.append(e.get("method"))
+            e = strip(e["recv"])
+        elif e.get("k") == "Call" and e.get("args") and "Ctor" not in (e.get("dk") or ""):
+            names.append((e.get("callee") or "?").split("::")[-1])
+            e = strip(e["args"][0])
+        elif e.get("k") == "Unary" and e.get("op") == "*":
+            e = strip(e["a"])
+        else:
+            break
+    names = list(reversed(names))
+    if aliases and depth < 6 and e.get("k") == "Path" and e.get("res") == "local" and e.get("name") in aliases:
+        n0, root = chain_of(aliases[e["name"]], aliases, depth + 1)
+        return n0 + names, root
+    return names, e
 
 
 def key_coverage_rule(F, rep):
@@ -610,8 +687,9 @@ def selectors_on_local(body, name, F):
 
 def selectors_on_field(h, field):
     out = []
+    al = aliases_of(h)
     for x, _ in find_hir(h["body"], lambda x: x.get("k") == "MethodCall"):
-        names, root = chain_of(x)
+        names, root = chain_of(x, al)
         if root.get("k") == "Field" and root.get("name") == field:
             out += [m for m in names if m in SELECTORS]
     return out
